@@ -157,21 +157,20 @@ def check_run(case, sub="runs"):
 
 
 def check_subprocess(case, sub="subprocess"):
-    """same seed, two fresh interpreters with different PYTHONHASHSEED"""
-    icls = case["solver"]
+    """same seeds, fresh interpreters with different PYTHONHASHSEED; several solver configurations per interpreter"""
     outs = []
     for hs in case["hashseeds"]:
         env = dict(os.environ, PYTHONHASHSEED=str(hs))
         r = subprocess.run([sys.executable, "-m", "vf.props.c19_worker", json.dumps(case)], env=env, capture_output=True, text=True,
-                           timeout=600, cwd=HOME)
+                           timeout=900, cwd=HOME)
         if r.returncode != 0:
-            raise Violation(sub, "exception:subprocess", "solve", icls, r.stderr[-400:])
+            raise Violation(sub, "exception:subprocess", "solve", "batch", r.stderr[-400:])
         outs.append(json.loads(r.stdout.strip().splitlines()[-1]))
-    if any(o != outs[0] for o in outs[1:]):
-        raise Violation(sub, "not-reproducible", "PYTHONHASHSEED", icls,
-                        "same seed, different PYTHONHASHSEED: halls of fame differ (scores %s vs %s)" % (
-                            [x[0] for x in outs[0]], [x[0] for x in outs[1]]))
-    return Info(nontrivial=True, classes=[icls])
+    for k, cfg in enumerate(case["configs"]):
+        if any(o[k] != outs[0][k] for o in outs[1:]):
+            raise Violation(sub, "not-reproducible", "PYTHONHASHSEED", cfg["solver"],
+                            "configuration %d (%s, seed %s): same seed, different PYTHONHASHSEED, halls of fame differ" % (k, cfg["solver"], cfg["seed"]))
+    return Info(nontrivial=True, classes=sorted({c["solver"] for c in case["configs"]}))
 
 
 @st.composite
@@ -187,17 +186,24 @@ def st_case(draw, sub=False):
         "det": draw(st.sampled_from([0, 1, 1, "probabilistic"])), "seed": draw(st.integers(0, 10**6)),
     }
     if sub:
-        c["hashseeds"] = [1, 2, 3] if solver == "hybrid" else [1, 7]
         c["compiler"] = "stab"
-        c["n_pop"] = max(c["n_pop"], 3)
-        c["n_stop"] = max(c["n_stop"], 3)
+        # large hall of fame, several generations: a divergence of the search is then visible in the hall of fame
+        c["n_pop"] = 6
+        c["n_stop"] = 6
+        c["n_hof"] = 6
+        if solver == "evolutionary":
+            c["ne"] = 2
     return c
+
+
+def st_batch(tier):
+    return st.fixed_dictionaries({"configs": st.lists(st_case(sub=True), min_size=5, max_size=5), "hashseeds": st.just([1, 2, 3])})
 
 
 SUBS = [
     Sub("runs", check_run, strategy=lambda tier: st_case(), n={"quick": 16, "thorough": 250}, shrink=False,
         timeout={"quick": 300, "thorough": 600}),
-    Sub("subprocess", check_subprocess, strategy=lambda tier: st_case(sub=True), n={"quick": 1, "thorough": 12}, shrink=False,
+    Sub("subprocess", check_subprocess, strategy=st_batch, n={"quick": 1, "thorough": 10}, shrink=False,
         timeout={"quick": 900, "thorough": 1800},
         doc="same case and seed in fresh interpreters with different PYTHONHASHSEED values"),
 ]
